@@ -1,6 +1,7 @@
 (* C14: the CGGI accumulator loops rotate the table by X^(b + sum a_i s_i). *)
 From PV Require Import Base.MachineInt Model.Znx Model.Limbs Model.Ring Model.C14Lut Model.C14Blind.
-From PV Require Import Proofs.C09Lists Proofs.C09Ring Proofs.C14Poly.
+From PV Require Import Model.Poly Model.C14Spec.
+From PV Require Import Proofs.C09Lists Proofs.C09Ring Proofs.C14Rotate Proofs.C14Poly.
 Open Scope Z_scope.
 
 (* ------------------------------------------------------------------ more polynomial algebra *)
@@ -238,18 +239,26 @@ Definition ext_rot (n : nat) (a : Z) (acc : list poly) : list poly :=
          else zrot a_hi (pnth acc (i - Z.to_nat a_lo)))
       (seq 0 (length acc)).
 
-(* the coefficients on which the code's guards are harmless *)
-Definition ext_guard (n e a : Z) : Prop :=
-  let t := 2 * n * e in
-  let a_pos := (a + t) mod t in
-  let a_hi := a_pos / e in let a_lo := a_pos mod e in
-  a_lo = 0 \/ (a_hi <> 0 /\ (a_hi + 1) mod (2 * n) <> 0).
+Definition shaped (n : nat) (acc : list poly) : Prop := Forall (fun p : poly => length p = n) acc.
 
-Lemma map2_padd_seq (n : nat) (acc : list poly) (g : nat -> poly) :
-  Forall (fun p => length p = n) acc -> (forall i, (i < length acc)%nat -> length (g i) = n) ->
+Lemma shaped_nth n acc j : shaped n acc -> (j < length acc)%nat -> length (pnth acc j) = n.
+Proof. intros H Hj. unfold shaped in H. rewrite Forall_forall in H. apply H. unfold pnth. apply nth_In. auto. Qed.
+
+Lemma ext_rot_length n a acc : length (ext_rot n a acc) = length acc.
+Proof. unfold ext_rot. cbv zeta. apply map_seq_length. Qed.
+
+Lemma ext_rot_shaped n a acc : (0 < length acc)%nat -> shaped n acc -> shaped n (ext_rot n a acc).
+Proof.
+  intros He Hs. unfold ext_rot. cbv zeta.
+  set (e := Z.of_nat (length acc)). set (t := 2 * Z.of_nat n * e). set (a_pos := (a + t) mod t).
+  assert (Hlo : 0 <= a_pos mod e < e) by (apply Z.mod_pos_bound; unfold e; lia).
+  apply Forall_forall. intros p Hp. apply in_map_iff in Hp. destruct Hp as [i [<- Hi]]. apply in_seq in Hi.
+  destruct (Z.ltb_spec (Z.of_nat i) (a_pos mod e)); rewrite zrot_length; apply shaped_nth; auto; unfold e in *; lia.
+Qed.
+
+Lemma map2_padd_seq (acc : list poly) (g : nat -> poly) :
   map2 padd acc (map g (seq 0 (length acc))) = map (fun i => padd (pnth acc i) (g i)) (seq 0 (length acc)).
 Proof.
-  intros Hacc Hg.
   assert (HL : length (map2 padd acc (map g (seq 0 (length acc)))) = length acc).
   { unfold map2. rewrite map_length, combine_length, map_length, seq_length. lia. }
   apply (nth_ext _ _ [] []).
@@ -262,93 +271,166 @@ Proof.
     rewrite nth_map_seq by auto. reflexivity.
 Qed.
 
-(* one selected coefficient (s = 1) outside the guard-sensitive set: the code adds exactly (Y^a - 1) * acc *)
+(* one selected coefficient (s = 1): the code adds exactly (Y^a - 1) * acc, for EVERY a *)
 Theorem ext_step_is_rotation (n : nat) (a : Z) (acc : list poly) :
-  (0 < n)%nat -> (0 < length acc)%nat -> Forall (fun p => length p = n) acc ->
-  ext_guard (Z.of_nat n) (Z.of_nat (length acc)) a ->
+  (0 < n)%nat -> (0 < length acc)%nat -> shaped n acc ->
   map2 padd acc (ext_contrib n a 1 acc) = ext_rot n a acc.
 Proof.
-  intros Hn He Hacc Hg. unfold ext_contrib, ext_rot. cbv zeta.
-  set (e := Z.of_nat (length acc)) in *. set (t := 2 * Z.of_nat n * e).
-  unfold ext_guard in Hg. cbv zeta in Hg. fold t in Hg.
+  intros Hn He Hacc. unfold ext_contrib, ext_rot. cbv zeta.
+  set (e := Z.of_nat (length acc)) in *.
+  replace (2 * Z.of_nat n * e) with (2 * Z.of_nat n * e) by reflexivity.
+  set (t := 2 * Z.of_nat n * e).
   set (a_pos := (a + t) mod t) in *. set (a_hi := a_pos / e) in *. set (a_lo := a_pos mod e) in *.
   assert (Hlo : 0 <= a_lo < e) by (apply Z.mod_pos_bound; unfold e; lia).
   assert (Hv : map (pscale 1) acc = acc).
   { rewrite <- (map_id acc) at 2. apply map_ext. intros; apply pscale_1. }
-  rewrite Hv.
-  assert (Hlen : forall j, (j < length acc)%nat -> length (pnth acc j) = n).
-  { intros j Hj. rewrite Forall_forall in Hacc. apply Hacc. unfold pnth. apply nth_In. auto. }
-  rewrite (map2_padd_seq n) ; [| exact Hacc |].
-  - apply map_seq_ext. intros i Hi.
-    pose proof (Hlen i Hi) as Hli.
-    destruct (Z.eqb_spec a_lo 0) as [Hz|Hnz].
-    + (* no permutation of the components *)
-      destruct (Z.ltb_spec (Z.of_nat i) a_lo); [lia|].
-      replace (i - Z.to_nat a_lo)%nat with i by lia.
-      destruct (Z.eqb_spec a_hi 0) as [Hh|Hh].
-      * rewrite Hh, zrot_0. pext. lia.
-      * pext. lia.
-    + destruct Hg as [Hg|[Hg1 Hg2]]; [lia|].
-      destruct (Z.ltb_spec (Z.of_nat i) a_lo).
-      * destruct (Z.eqb_spec ((a_hi + 1) mod (2 * Z.of_nat n)) 0); [lia|].
-        pose proof (Hlen (Z.to_nat (e - a_lo) + i)%nat ltac:(unfold e in *; lia)). pext. lia.
-      * destruct (Z.eqb_spec a_hi 0); [lia|].
-        pose proof (Hlen (i - Z.to_nat a_lo)%nat ltac:(lia)). pext. lia.
-  - intros i Hi. pose proof (Hlen i Hi).
-    destruct (Z.eqb a_lo 0); [destruct (Z.eqb a_hi 0); plen|].
-    destruct (Z.ltb_spec (Z.of_nat i) a_lo).
-    + pose proof (Hlen (Z.to_nat (e - a_lo) + i)%nat ltac:(unfold e in *; lia)). destruct (Z.eqb _ 0); plen.
-    + pose proof (Hlen (i - Z.to_nat a_lo)%nat ltac:(lia)). destruct (Z.eqb a_hi 0); plen.
+  rewrite Hv. rewrite map2_padd_seq.
+  apply map_seq_ext. intros i Hi.
+  pose proof (shaped_nth n acc i Hacc Hi) as Hli.
+  destruct (Z.eqb_spec a_lo 0) as [Hz|Hnz].
+  - destruct (Z.ltb_spec (Z.of_nat i) a_lo); [lia|].
+    replace (i - Z.to_nat a_lo)%nat with i by lia.
+    destruct (Z.eqb_spec a_hi 0) as [Hh|Hh].
+    + rewrite Hh, zrot_0. pext. lia.
+    + pext. lia.
+  - destruct (Z.ltb_spec (Z.of_nat i) a_lo).
+    + pose proof (shaped_nth n acc (Z.to_nat (e - a_lo) + i)%nat Hacc ltac:(unfold e in *; lia)) as Hlj.
+      rewrite (zrot_congr ((a_hi + 1) mod (2 * Z.of_nat n)) (a_hi + 1)) by (rewrite Hlj; apply Z.mod_mod; lia).
+      pext. lia.
+    + pose proof (shaped_nth n acc (i - Z.to_nat a_lo)%nat Hacc ltac:(lia)). pext. lia.
 Qed.
 
-(* the repaired contribution has no exception *)
-Theorem ext_step_spec_is_rotation (n : nat) (a : Z) (acc : list poly) :
-  (0 < n)%nat -> (0 < length acc)%nat -> Forall (fun p => length p = n) acc ->
-  map2 padd acc (ext_contrib_spec n a 1 acc) = ext_rot n a acc.
+(* ---- the ext components are the big-ring polynomial, and ext_rot is multiplication by Y^a there ---- *)
+Definition zbig (n : nat) (acc : list poly) : poly := interleave (n * length acc) acc.
+
+Lemma zext_interleave (n : nat) (parts : list (list Z)) (q : Z) (r : nat) :
+  (0 < n)%nat -> (r < length parts)%nat -> Forall (fun p : list Z => length p = n) parts ->
+  zext (interleave (n * length parts) parts) (q * Z.of_nat (length parts) + Z.of_nat r) = zext (nth r parts []) q.
 Proof.
-  intros Hn He Hacc. unfold ext_contrib_spec, ext_rot. cbv zeta.
-  set (e := Z.of_nat (length acc)) in *. set (t := 2 * Z.of_nat n * e).
-  set (a_pos := (a + t) mod t) in *. set (a_hi := a_pos / e) in *. set (a_lo := a_pos mod e) in *.
-  assert (Hlo : 0 <= a_lo < e) by (apply Z.mod_pos_bound; unfold e; lia).
-  assert (Hv : map (pscale 1) acc = acc).
-  { rewrite <- (map_id acc) at 2. apply map_ext. intros; apply pscale_1. }
-  rewrite Hv.
-  assert (Hlen : forall j, (j < length acc)%nat -> length (pnth acc j) = n).
-  { intros j Hj. rewrite Forall_forall in Hacc. apply Hacc. unfold pnth. apply nth_In. auto. }
-  rewrite (map2_padd_seq n) ; [| exact Hacc |].
-  - apply map_seq_ext. intros i Hi. pose proof (Hlen i Hi) as Hli.
-    destruct (Z.ltb_spec (Z.of_nat i) a_lo).
-    + pose proof (Hlen (Z.to_nat (e - a_lo) + i)%nat ltac:(unfold e in *; lia)). pext. lia.
-    + pose proof (Hlen (i - Z.to_nat a_lo)%nat ltac:(lia)). pext. lia.
-  - intros i Hi. pose proof (Hlen i Hi).
-    destruct (Z.ltb_spec (Z.of_nat i) a_lo).
-    + pose proof (Hlen (Z.to_nat (e - a_lo) + i)%nat ltac:(unfold e in *; lia)). plen.
-    + pose proof (Hlen (i - Z.to_nat a_lo)%nat ltac:(lia)). plen.
+  intros Hn Hr Hall. set (e := length parts) in *.
+  assert (Hlen : length (nth r parts []) = n).
+  { rewrite Forall_forall in Hall. apply Hall. apply nth_In. exact Hr. }
+  destruct (exp_decomp (Z.of_nat n) q ltac:(lia)) as [q1 [c [Hq Hc]]].
+  rewrite (zext_at_nat (nth r parts []) q q1 c) by (rewrite Hlen; lia).
+  rewrite (zext_at_nat (interleave (n * e) parts) _ q1 (c * e + r)).
+  - rewrite interleave_nth by nia. fold e.
+    destruct (nat_divmod_lin c e r Hr) as [Hm Hd]. rewrite Hm, Hd. reflexivity.
+  - rewrite interleave_length. rewrite Hq. rewrite !Nat2Z.inj_add, !Nat2Z.inj_mul. ring.
+  - rewrite interleave_length. nia.
 Qed.
 
-(* the statement one wants for the code as it is ... *)
-Definition ext_step_is_rotation_full : Prop :=
-  forall (n : nat) (a : Z) (acc : list poly),
-    (0 < n)%nat -> (0 < length acc)%nat -> Forall (fun p => length p = n) acc ->
-    map2 padd acc (ext_contrib n a 1 acc) = ext_rot n a acc.
-
-(* ... is false: N = 2, ext = 2, a = 1 (ai_hi = 0, ai_lo = 1): the second component is not updated *)
-Theorem ext_step_is_rotation_refuted :
-  exists (n : nat) (a : Z) (acc : list poly),
-    (0 < n)%nat /\ (0 < length acc)%nat /\ Forall (fun p => length p = n) acc /\
-    map2 padd acc (ext_contrib n a 1 acc) <> ext_rot n a acc.
+Lemma sub_mod_pos (u a t : Z) : 0 < t -> (u - a) mod t = (u - (a + t) mod t) mod t.
 Proof.
-  exists 2%nat, 1, [[1; 2]; [3; 4]]. repeat split; try (cbn; lia).
-  - repeat constructor.
-  - vm_compute. discriminate.
+  intros Ht. rewrite (Zminus_mod u ((a + t) mod t)), Z.mod_mod by lia.
+  replace (a + t) with (a + 1 * t) by ring. rewrite Z.mod_add by lia. rewrite <- Zminus_mod. reflexivity.
 Qed.
 
-(* end to end on the executable model: table (5,7 | 6,8 interleaved = 5,6,7,8), one block of one coefficient a = -1
-   (ai_hi = 2N-1, ai_lo = 1), s = 1, b = 0: component 0 should be that of Y^-1 * (5,6,7,8) = (6,7,8,-5), i.e. (6, 8);
-   the code's loop leaves (5, 7) *)
-Theorem cggi_extended_refuted :
-  exists (n block : nat) (b : Z) (av sv : list Z) (lutp : list poly),
-    nth 0 (cggi_extended n block b av sv lutp) [] <> nth 0 (ext_rot n (b + dotp (combine av sv)) lutp) [].
+Theorem zbig_ext_rot (n : nat) (a : Z) (acc : list poly) :
+  (0 < n)%nat -> (0 < length acc)%nat -> shaped n acc ->
+  zbig n (ext_rot n a acc) = zrot a (zbig n acc).
 Proof.
-  exists 2%nat, 1%nat, 0, [-1], [1], [[5; 7]; [6; 8]]. vm_compute. discriminate.
+  intros Hn He Hacc. unfold zbig. rewrite ext_rot_length.
+  set (e := length acc) in *. set (E := Z.of_nat e).
+  set (t := 2 * Z.of_nat n * E).
+  assert (HT : 0 < t) by (unfold t, E; nia).
+  set (a_pos := (a + t) mod t). set (a_hi := a_pos / E). set (a_lo := a_pos mod E).
+  assert (Hlo : 0 <= a_lo < E) by (apply Z.mod_pos_bound; unfold E; lia).
+  assert (Hsp : a_pos = a_hi * E + a_lo) by (unfold a_hi, a_lo; pose proof (Z.div_mod a_pos E ltac:(unfold E; lia)); lia).
+  assert (Hbl : length (interleave (n * e) acc) = (n * e)%nat) by apply interleave_length.
+  apply nthZ_ext; [rewrite zrot_length, !interleave_length; reflexivity|].
+  intros u Hu. rewrite interleave_length in Hu.
+  rewrite zrot_nth by (rewrite Hbl; auto).
+  rewrite interleave_nth by auto. rewrite ext_rot_length. fold e.
+  set (i := (u mod e)%nat). set (tt := (u / e)%nat).
+  assert (Hi : (i < e)%nat) by (apply Nat.mod_upper_bound; lia).
+  assert (Ht : (tt < n)%nat) by (apply Nat.div_lt_upper_bound; lia).
+  assert (Hutz : Z.of_nat u = Z.of_nat tt * E + Z.of_nat i).
+  { pose proof (Nat.div_mod u e ltac:(lia)). unfold tt, i, E. lia. }
+  assert (Hcong : (Z.of_nat u - a) mod (2 * Z.of_nat (length (interleave (n * e) acc)))
+                = (Z.of_nat u - a_pos) mod (2 * Z.of_nat (length (interleave (n * e) acc)))).
+  { rewrite Hbl. replace (2 * Z.of_nat (n * e)) with t by (unfold t, E; rewrite Nat2Z.inj_mul; ring).
+    unfold a_pos. apply sub_mod_pos. exact HT. }
+  rewrite (zext_congr _ _ (Z.of_nat u - a_pos)) by (rewrite ?Hbl; auto; nia).
+  unfold ext_rot. cbv zeta. fold e E t a_pos a_hi a_lo.
+  rewrite nth_map_seq by auto.
+  destruct (Z.ltb_spec (Z.of_nat i) a_lo).
+  - set (j := (Z.to_nat (E - a_lo) + i)%nat).
+    assert (Hj : (j < e)%nat) by (unfold j, E in *; lia).
+    rewrite zrot_nth by (rewrite shaped_nth; auto).
+    replace (Z.of_nat u - a_pos) with ((Z.of_nat tt - (a_hi + 1)) * Z.of_nat (length acc) + Z.of_nat j)
+      by (fold e E; assert (Z.of_nat j = E - a_lo + Z.of_nat i) by (unfold j; lia); lia).
+    rewrite zext_interleave by auto. reflexivity.
+  - set (j := (i - Z.to_nat a_lo)%nat).
+    assert (Hj : (j < e)%nat) by (unfold j; lia).
+    rewrite zrot_nth by (rewrite shaped_nth; auto).
+    replace (Z.of_nat u - a_pos) with ((Z.of_nat tt - a_hi) * Z.of_nat (length acc) + Z.of_nat j)
+      by (fold e E; assert (Z.of_nat j = Z.of_nat i - a_lo) by (unfold j; lia); lia).
+    rewrite zext_interleave by auto. reflexivity.
+Qed.
+
+(* ---- one block: at most one selected coefficient ---- *)
+Lemma ext_block_zero (n : nat) (t : list (Z * Z)) (acc cur : list poly) :
+  Forall (fun q => snd q = 0) t ->
+  fold_left (fun (cur : list poly) (q : Z * Z) =>
+               if snd q =? 0 then cur else map2 padd cur (ext_contrib n (fst q) (snd q) acc)) t cur = cur.
+Proof.
+  revert cur. induction t as [|q t IH]; intros cur H; cbn [fold_left]; [reflexivity|].
+  inversion H as [|? ? Hq Ht]; subst. rewrite Hq. cbn [Z.eqb]. apply IH. exact Ht.
+Qed.
+
+Lemma ext_block_step_rot (n : nat) (blk : list (Z * Z)) (acc : list poly) :
+  (0 < n)%nat -> (0 < length acc)%nat -> shaped n acc -> at_most_one blk ->
+  length (ext_block_step n blk acc) = length acc /\ shaped n (ext_block_step n blk acc) /\
+  zbig n (ext_block_step n blk acc) = zrot (dotp blk) (zbig n acc).
+Proof.
+  intros Hn He Hacc Hamo. unfold ext_block_step.
+  induction Hamo as [|a t Ht IH|a t Ht].
+  - cbn [fold_left dotp]. rewrite zrot_0. auto.
+  - cbn [fold_left fst snd Z.eqb dotp]. replace (a * 0 + dotp t) with (dotp t) by lia. exact IH.
+  - cbn [fold_left fst snd Z.eqb dotp]. rewrite ext_block_zero by exact Ht.
+    assert (Hd : dotp t = 0).
+    { clear -Ht. induction t as [|q t IH]; cbn [dotp]; [reflexivity|]. inversion Ht; subst. rewrite IH by auto. lia. }
+    rewrite Hd. replace (a * 1 + 0) with a by lia.
+    rewrite ext_step_is_rotation by auto.
+    split; [apply ext_rot_length|]. split; [apply ext_rot_shaped; auto|]. apply zbig_ext_rot; auto.
+Qed.
+
+Lemma ext_init_is_rot n b lutp : ext_init n b lutp = ext_rot n b lutp.
+Proof. reflexivity. Qed.
+
+(* ---- the whole loop: the accumulator is Y^(b + sum a_i s_i) * table in the big ring ---- *)
+Theorem cggi_extended_rot (n block : nat) (b : Z) (av sv : list Z) (lutp : list poly) :
+  (0 < n)%nat -> (0 < length lutp)%nat -> shaped n lutp ->
+  Forall at_most_one (chunks block (combine av sv)) ->
+  length (cggi_extended n block b av sv lutp) = length lutp /\
+  zbig n (cggi_extended n block b av sv lutp) = zrot (b + dotp (concat (chunks block (combine av sv)))) (zbig n lutp).
+Proof.
+  intros Hn He Hs. unfold cggi_extended. generalize (chunks block (combine av sv)) as cs. intros cs Hall.
+  assert (Hgen : forall acc, (0 < length acc)%nat -> shaped n acc ->
+            length (fold_left (fun acc blk => ext_block_step n blk acc) cs acc) = length acc /\
+            zbig n (fold_left (fun acc blk => ext_block_step n blk acc) cs acc) = zrot (dotp (concat cs)) (zbig n acc)).
+  { induction cs as [|blk t IH]; intros acc Ha Hsa.
+    - cbn [fold_left concat dotp]. rewrite zrot_0. auto.
+    - inversion Hall as [|? ? Hb Ht]; subst. cbn [fold_left concat].
+      destruct (ext_block_step_rot n blk acc Hn Ha Hsa Hb) as [H1 [H2 H3]].
+      destruct (IH Ht (ext_block_step n blk acc) ltac:(rewrite H1; auto) H2) as [H4 H5].
+      split; [rewrite H4; exact H1|]. rewrite H5, H3, zrot_compose, dotp_app. f_equal. lia. }
+  rewrite ext_init_is_rot.
+  destruct (Hgen (ext_rot n b lutp) ltac:(rewrite ext_rot_length; auto) (ext_rot_shaped n b lutp He Hs)) as [H1 H2].
+  split; [rewrite H1; apply ext_rot_length|].
+  rewrite H2, zbig_ext_rot by auto. rewrite zrot_compose. f_equal. lia.
+Qed.
+
+(* the result of execute_block_binary_extended is component 0: its coefficient u is big-ring coefficient u * ext *)
+Theorem cggi_extended_result (n block : nat) (b : Z) (av sv : list Z) (lutp : list poly) (u : nat) :
+  (0 < n)%nat -> (0 < length lutp)%nat -> shaped n lutp ->
+  Forall at_most_one (chunks block (combine av sv)) -> (u < n)%nat ->
+  nthZ (nth 0 (cggi_extended n block b av sv lutp) []) u
+  = nthZ (zrot (b + dotp (concat (chunks block (combine av sv)))) (zbig n lutp)) (u * length lutp).
+Proof.
+  intros Hn He Hs Hall Hu.
+  destruct (cggi_extended_rot n block b av sv lutp Hn He Hs Hall) as [HL HZ].
+  rewrite <- HZ. unfold zbig. rewrite HL.
+  rewrite interleave_nth by nia. rewrite HL.
+  rewrite Nat.mod_mul, Nat.div_mul by lia. reflexivity.
 Qed.
